@@ -11,6 +11,15 @@ def run(ck):
               what="outline semantics on the model's own graph at r=0 (whole sphere, corners = triangles of the neighbour graph): every "
                    "corner meets 0 or 2 boundary edges, #cycles = components(S) + components(complement) - 1, the inner side of each "
                    "cycle lies in one component; " + what)
+    ck.mc("MC_VertexGraph", "MC_VertexGraph.cfg", workers=8, xmx="8g",
+          what="edge-cancellation graph of h3SetToVertexGraph as a state machine: arbitrary base hash values, the two cells' copies of a "
+               "shared vertex may hash to adjacent values, arbitrary bucket collisions: with the lookup over value, value+1, value-1 the "
+               "stored edges are exactly the outline")
+    neg = vlib.tlc("MC_VertexGraph", "MC_VertexGraph_prefix.cfg", workers=8)
+    if neg["verdict"] != "invariant":
+        raise vlib.InfraError("negative control (own-bucket lookup, the design before the fix) was not rejected: %s" % neg["verdict"])
+    ck.ev.notes.append("negative control: the vertex-graph model with the own-bucket-only lookup (the defect fixed in /repo 0b215137) "
+                       "violates OutlineExact, as expected")
     drv = vlib.build_driver("drv_lmp", "alloc")
     t = os.path.join(ck.tdir, "lmp.ndjson")
     d = vlib.run_driver(drv, ["run", ck.tier, ck.seed, t], timeout=3000)
